@@ -307,6 +307,120 @@ def run_abi(chk, exe, found_limit=3):
     return found
 
 
+# ---------------------------------------------------------------- histories mixing interfaces across link steps (round 3, y)
+
+def hist_ops(steps, ref=False):
+    """steps of tools/gen_c03_progs.py gen_mixed_history -> harness ops; ref: the interpreter-only reference (every link
+    with the interpreter interface, no explicit MIR_gen, the same calls)"""
+    ops = []
+    for st in steps:
+        if st[0] == 'link':
+            ops.append('link %s:%s' % ('interp' if ref else st[2], ','.join(map(str, st[1]))))
+        elif st[0] == 'gen':
+            if not ref:
+                ops.append('gen ' + st[1])
+        else:
+            ops.append(st[1])
+    return ops
+
+
+def run_hists(exe, path, opslists, opt, timeout=300):
+    lines = ['I %s %d - | %s' % (path, opt, ' ; '.join(ops)) for ops in opslists]
+    rc, out, err = vlib.run_lines(exe, lines, timeout=timeout)
+    joined = []
+    for o in out:
+        if o.startswith('I') or not joined:
+            joined.append(o)
+        else:
+            joined[-1] += ' ' + o
+    while len(joined) < len(lines):
+        joined.append('I NOANSWER')
+    # an explicit MIR_gen answers " g" (address as promised): not part of the behaviour compared with the reference
+    return [re.sub(r' g(?= )', '', canon(j)) for j in joined[:len(lines)]]
+
+
+def hist_bad(exe, text, steps, opt, site=None):
+    outs = run_hists(exe, write_prog(text, 'shrink'), [hist_ops(steps, True), hist_ops(steps)], opt, timeout=60)
+    if 'CRASH' in outs[0] or 'ERROR' in outs[0] or 'NOANSWER' in outs[0]:
+        return False
+    if site is not None:
+        return GEN_FAILED in outs[1] and death_site(outs[1]) == site
+    return disagree(outs) is not None
+
+
+def shrink_hist(exe, text, steps, opt, site=None):
+    """drop calls / explicit generations (link steps stay), then removable body lines"""
+    idx = [i for i, st in enumerate(steps) if st[0] != 'link']
+    keep = set(vlib.shrink_list(idx, lambda sub: hist_bad(exe, text, [st for i, st in enumerate(steps) if st[0] == 'link' or i in set(sub)], opt, site),
+                                max_steps=60))
+    steps = [st for i, st in enumerate(steps) if st[0] == 'link' or i in keep]
+    lines = text.split('\n')
+    rem = removable(lines)
+    rem_set = set(rem)
+
+    def fails(k):
+        ks = set(k)
+        return hist_bad(exe, '\n'.join(l for i, l in enumerate(lines) if i not in rem_set or i in ks), steps, opt, site)
+    ks = set(vlib.shrink_list(rem, fails, max_steps=300)) if rem else set()
+    text2 = '\n'.join(l for i, l in enumerate(lines) if i not in rem_set or i in ks)
+    if not hist_bad(exe, text2, steps, opt, site):
+        text2 = text
+    return text2, steps
+
+
+def run_mixed(chk, exe, found_limit=2):
+    """Programs of gen_program (mixed=True) x histories of gen_mixed_history: one module linked lazily / per basic block /
+    with the interpreter interface (+ explicit MIR_gen of single functions), partly executed, then another module --
+    related or the unrelated island -- linked with another interface (typically eagerly), then the earlier functions
+    executed on the paths not taken before.  Every history is compared with its interpreter-only reference."""
+    quick = chk.tier == 'quick'
+    rng = chk.rng('mixed')
+    found = 0
+    seen_sites = set()
+    for k in range(40 if quick else 300):
+        prog = G.gen_program(rng, feats=FEATS, mixed=True)
+        opt = rng.choice([0, 1, 1, 2, 3])
+        path = write_prog(prog['text'], 'mx')
+        for _ in range(2):
+            steps = G.gen_mixed_history(rng, prog)
+            outs = run_hists(exe, path, [hist_ops(steps, True), hist_ops(steps)], opt)
+            chk.count(('mixed', prog['text'], tuple(map(str, steps)), opt), nontrivial=True)
+            chk.dist('iface_runs', 'mixed-history')
+            chk.dist('mixed_link_sequence', '>'.join(st[2] for st in steps if st[0] == 'link'))
+            for st in steps:
+                chk.dist('mixed_steps', st[0])
+            if k == 0:
+                chk.sample('mixed-link history: ' + ' ; '.join(hist_ops(steps))[:500])
+            site = None
+            if GEN_FAILED in outs[1]:
+                site = death_site(outs[1])
+                chk.dist('generator_died_in', site)
+                if site in seen_sites:
+                    continue
+                seen_sites.add(site)
+            elif disagree(outs) is None:
+                continue
+            elif not hist_bad(exe, prog['text'], steps, opt) or not hist_bad(exe, prog['text'], steps, opt):
+                chk.dist('unstable_run', 'mixed-history')   # did not reproduce twice: say so, do not report
+                continue
+            text, steps2 = shrink_hist(exe, prog['text'], steps, opt, site)
+            outs2 = run_hists(exe, write_prog(text, 'final'), [hist_ops(steps2, True), hist_ops(steps2)], opt)
+            rp = dict(kind='ifaces', text=text, steps=[list(st) for st in steps2], opt=opt, outs=outs2, original_features=prog['features'])
+            if site is not None:
+                if chk.finding('gen-died:' + site, rp, 'the code generator dies in %s at -O%d in a history mixing interfaces across link steps: %s -> %s' % (
+                        site, opt, ' ; '.join(hist_ops(steps2))[:300], outs2[1][-120:])):
+                    found += 1
+            else:
+                found += 1
+                sig = 'ifaces:' + hashlib.sha1((text + '|'.join(hist_ops(steps2))).encode()).hexdigest()[:12]
+                chk.finding(sig, rp, 'a history mixing interfaces across link steps disagrees with its interpreter-only reference: [%s] -> %s   vs   reference -> %s   (opt %d)' % (
+                    ' ; '.join(hist_ops(steps2))[:400], outs2[1][:160], outs2[0][:160], opt))
+            break
+        if found >= found_limit:
+            break
+    return found
+
+
 # ---------------------------------------------------------------- run
 
 def one_program(chk, exe, rng, k, quick):
@@ -453,6 +567,10 @@ def run(chk):
     found += run_abi(chk, exe)
     if found >= 3:
         return True
+    # histories mixing interfaces across link steps (~10 s)
+    found += run_mixed(chk, exe)
+    if found >= 3:
+        return True
     seen_sites = set()
     for k in range(nprog):
         res, deaths = one_program(chk, exe, rng, k, quick)
@@ -473,6 +591,13 @@ def run(chk):
 def replay(chk, rp):
     exe = build()
     p = write_prog(rp['text'], 'replay')
+    if rp.get('steps'):
+        steps = [tuple(st) for st in rp['steps']]
+        outs = run_hists(exe, p, [hist_ops(steps, True), hist_ops(steps)], rp.get('opt', 2))
+        print(rp['text'])
+        for s, o in zip((hist_ops(steps, True), hist_ops(steps)), outs):
+            print('%s\n    -> %s' % (' ; '.join(s), o))
+        return 1 if disagree(outs) is not None or GEN_FAILED in outs[1] else 0
     outs = run_prog(exe, p, rp['specs'], rp['calls'], rp.get('opt', 2))
     print(rp['text'])
     for s, o in zip(rp['specs'], outs):
